@@ -613,3 +613,67 @@ def run_hashed(run, P):
             return None
         solve(f, Env({'added': 0}), on_event, None, keys, R, key_fn=lambda e: (e.ts.get('added'), tuple(e.nullf(v) for v in sorted(made))))
     run.require(n >= (2 if getattr(run, 'cfg', 'base') == 'base' else 0) or run.fixture_mode, 'R-SESS-HASHED: fewer than 2 releases of sessions made in the same function found')
+
+
+def run_touch(run, P):
+    """R-SESS-EVT (idle accounting): the function that maps a received datagram to its session (returns a coap_session_t* and refreshes
+    last_rx_tx somewhere) refreshes it on every path that returns a session it FOUND BY ITS HASH LOOK-UP (the path every datagram after a
+    peer's first one takes; the connection-id path, which re-files a session under a new address, is taken once per address change and is
+    not judged): idle reclamation and the choice of the oldest idle session
+    measure from that field, so a session that is found without being touched ages while its peer keeps sending -- it is reclaimed in the
+    middle of a stream (second NEW event, a second session for the same peer) or evicted instead of a really idle one."""
+    run.rule('R-SESS-EVT')
+    FIELD = 'last_rx_tx'
+    n = 0
+    for f in sorted(P.lib_funcs(), key=lambda f: f['name']):
+        if f['ret'].get('prec') != 'coap_session_t' and 'coap_session_t' not in (f['ret'].get('t') or ''):
+            continue
+        touches = []
+        for b, ev in P.events(f):
+            t = ev['e']
+            if t.get('k') == 'asg' and t.get('op') == '=':
+                l = strip(t['l'])
+                if isinstance(l, dict) and l.get('k') == 'mem' and l.get('f') == FIELD and ap(l.get('b')):
+                    touches.append((ev, ap(l['b'])))
+        if not touches:
+            continue
+        svars = set(t[1] for t in touches)
+        rets = [ev for b, ev in P.events(f) if ev['e'].get('k') == 'ret' and ev['e'].get('e') is not None and ap(strip(ev['e']['e'])) in svars]
+        if not rets:
+            continue
+        name = f['name']
+        n += 1
+        run.instance('R-SESS-EVT', '%s: every returned session had %s refreshed' % (name, FIELD))
+
+        def is_rule_event(ev):
+            t = ev['e']
+            return any(ev is x[0] for x in touches) or any(ev is r for r in rets) or (t.get('k') == 'asg' and ap(t['l']) in svars)
+        keys, R = relevance(f, is_rule_event, svars)
+        R = set(R) | svars
+
+        def on_event(ev, env, ctx):
+            t = ev['e']
+            for tev, v in touches:
+                if ev is tev:
+                    e = apply_generic(ev, env, R).copy()
+                    e.ts['t:' + v] = 1
+                    return [e]
+            if t.get('k') == 'asg' and ap(t['l']) in svars:
+                e = apply_generic(ev, env, R).copy()
+                e.ts['t:' + ap(t['l'])] = 0
+                # where the candidate comes from: the hash look-up (the path every datagram after a peer's first takes) or something else
+                e.ts['o:' + ap(t['l'])] = 'find' if any('FIND' in m for m in (ev.get('mac') or ())) else 'other'
+                return [e]
+            if any(ev is r for r in rets):
+                v = ap(strip(t['e']))
+                if env.nullf(v) == 'Z' or env.ts.get('o:' + v) != 'find':
+                    return None
+                ok = bool(env.ts.get('t:' + v))
+                run.oblige('R-SESS-EVT', ok, '%s:returned-session-touched' % name)
+                if not ok:
+                    run.violation('R-SESS-EVT', name, ev['loc'], 'session-returned-untouched',
+                                  'a session is returned for a received datagram on a path that did not refresh its %s: it keeps ageing while its peer is sending and is '
+                                  'reclaimed or evicted as idle' % FIELD, ctx.path())
+            return None
+        solve(f, Env(), on_event, None, keys, R, key_fn=lambda e: (tuple(sorted((k, v) for k, v in e.ts.items() if k[:2] in ('t:', 'o:'))), tuple(e.nullf(v) for v in sorted(svars))))
+    run.require(n >= 1 or run.fixture_mode or run.cfg != 'base', 'R-SESS-EVT(idle accounting): no function that returns a session and refreshes last_rx_tx found')
